@@ -170,7 +170,35 @@ func (env *SpecEnv) eval(e ast.Expr) *Val {
 		if len(n.Elts) == 0 {
 			return zeroVal(t)
 		}
-		sfail("composite literals with elements are not supported")
+		if stt, ok := under(t).(*types.Struct); ok {
+			v := zeroVal(t)
+			for k, el := range n.Elts {
+				idx := k
+				val := el
+				if kv, ok := el.(*ast.KeyValueExpr); ok {
+					id, ok := kv.Key.(*ast.Ident)
+					if !ok {
+						sfail("struct literal key must be a field name")
+					}
+					idx = -1
+					for i := 0; i < stt.NumFields(); i++ {
+						if stt.Field(i).Name() == id.Name {
+							idx = i
+						}
+					}
+					if idx < 0 {
+						sfail("no field %s in %v", id.Name, t)
+					}
+					val = kv.Value
+				}
+				if idx >= stt.NumFields() {
+					sfail("too many values in struct literal")
+				}
+				v = v.withField(idx, env.coerce(env.eval(val), stt.Field(idx).Type()))
+			}
+			return v
+		}
+		sfail("composite literals with elements are only supported for structs")
 	}
 	sfail("unsupported expression %T", e)
 	return nil
@@ -728,6 +756,11 @@ func (env *SpecEnv) quant(forall bool, n *ast.CallExpr) *Val {
 	sub := env.child()
 	sub.vars[id.Name] = mkInt(types.Typ[types.Int], bv)
 	facts, body := x.captured(func() string { return sub.eval(n.Args[3]).T() }, bv)
+	{
+		var ps []string
+		lo, hi, ps = reindex(bv, lo, hi, facts, body)
+		facts, body = ps[0], ps[1]
+	}
 	rng := tAnd(tCmp("<=", lo, bv), tCmp("<", bv, hi))
 	if forall {
 		if env.pol == -1 && !strings.Contains(body, "(exists ") {
@@ -1005,7 +1038,36 @@ func (env *SpecEnv) callReal(n *ast.CallExpr) *Val {
 			}
 			return r[0]
 		}
+		if c := x.w.contractFor(fn); c != nil && c.Pure {
+			// a pure function under contract: its result is whatever the contract says
+			x.noObl++
+			defer func() { x.noObl-- }()
+			fr := x.newFrame(fn, env.frame)
+			if env.frame != nil {
+				fr = env.frame
+			}
+			st := env.st.clone()
+			r := fr.callWithContract(st, c, fn, fn.Signature, fn.String(), args, token.NoPos)
+			if len(r) != 1 {
+				sfail("call to %s in a clause must have one result", fn.Name())
+			}
+			return r[0]
+		}
 		sfail("external function %s in a clause", fn.String())
+	}
+	if c := x.w.contractFor(fn); c != nil && c.Pure && hasLoop(fn) {
+		x.noObl++
+		defer func() { x.noObl-- }()
+		fr := x.newFrame(fn, env.frame)
+		if env.frame != nil {
+			fr = env.frame
+		}
+		st := env.st.clone()
+		r := fr.callWithContract(st, c, fn, fn.Signature, fn.String(), args, token.NoPos)
+		if len(r) != 1 {
+			sfail("call to %s in a clause must have one result", fn.Name())
+		}
+		return r[0]
 	}
 	if hasLoop(fn) {
 		sfail("function %s has loops; it cannot be used in a clause", fn.String())
